@@ -306,6 +306,7 @@ def r3_all_scopes(chk: Check) -> None:
     ]
     for ref, callee, locals_, threaded in sites:
         fn = P.func(ref)
+        locals_ = set(locals_) | set(defined_by(fn, "$v = self.get_local_hook_dispatcher()"))
         seen: dict[str, ast.Call] = {}
         for c in body_calls(fn):
             if last_attr(c) != callee:
@@ -358,11 +359,15 @@ def r4_auth(chk: Check) -> None:
     P = chk.project
     for ref in ("auths.py:AuthStorage.register", "auths.py:AuthStorage.apply", "auths.py:AuthStorage.set_from_requests"):
         fn = P.func(ref)
+        # the registration's filter set: the local handed to the provider as `filter_set=`
+        handed = [kwarg(c, "filter_set") or (c.args[1] if last_attr(c) == "SelectiveAuthProvider" and len(c.args) > 1 else None)
+                  for c in body_calls(fn, into_nested=True) if last_attr(c) in ("_set_provider", "SelectiveAuthProvider")]
+        fsv = next((h.id for h in handed if isinstance(h, ast.Name)), "filter_set")
         fresh = [
-            (s, v) for s, v in assignments_to(fn.node, "filter_set")
+            (s, v) for s, v in assignments_to(fn.node, fsv)
             if isinstance(v, ast.Call) and dotted(v.func) == "FilterSet" and not v.args and not v.keywords
         ]
-        all_assigns = assignments_to(fn.node, "filter_set", into_nested=True)
+        all_assigns = assignments_to(fn.node, fsv, into_nested=True)
         construct = "filter_set = FilterSet() per call"
         if len(fresh) == 1 and len(all_assigns) == 1:
             chk.ok("C19.R4", fn, construct, "", fn.loc(fresh[0][0]))
@@ -385,7 +390,7 @@ def r4_auth(chk: Check) -> None:
         if not consumers:
             chk.violation("C19.R4", fn, "provider receives filter_set", "the provider is registered without the filter set", fn.loc())
         for la, c, v in consumers:
-            ok = isinstance(v, ast.Name) and v.id == "filter_set"
+            ok = isinstance(v, ast.Name) and v.id == fsv
             chk.decide(ok if v is not None else False, "C19.R4", fn, f"{la}(filter_set=...)",
                        f"provider gets {unparse(v)} instead of this registration's filter_set", fn.loc(c))
         chains = {}
@@ -399,9 +404,9 @@ def r4_auth(chk: Check) -> None:
                 chk.violation("C19.R4", fn, construct, f"`{attr}` is not attached: the filter cannot be expressed", fn.loc())
                 continue
             d = dotted(c.args[2])
-            if d == f"filter_set.{want}":
+            if d == f"{fsv}.{want}":
                 chk.ok("C19.R4", fn, construct, "", fn.loc(c))
-            elif d in ("filter_set.include", "filter_set.exclude"):
+            elif d in (f"{fsv}.include", f"{fsv}.exclude"):
                 chk.violation("C19.R4", fn, construct, f"`{attr}` is wired to {d}", fn.loc(c))
             else:
                 chk.undecided("C19.R4", fn, construct, f"wired to {d}", fn.loc(c))
